@@ -79,13 +79,31 @@ def make_constraint(name, dim, lo, hi, rng):
     return f
 
 
-def as_given(f, inplace):
-    """the callable handed to mystic: pure (returns a new object) or mutating its argument in place"""
+def spelled(vals, spell):
+    """the same numbers as a caller may legally write them: python floats (default), python ints where integral,
+    an integer ndarray (only if every entry is a finite integer), a tuple; None entries (no bound) are kept"""
+    vals = list(vals)
+    integral = [v is not None and math.isfinite(v) and float(v).is_integer() for v in vals]
+    if spell == "int":
+        return [int(v) if ok else v for v, ok in zip(vals, integral)]
+    if spell == "intarray":
+        return np.array([int(v) for v in vals], dtype=int) if all(integral) else vals
+    if spell == "tuple":        # (a tuple with None entries is refused by SetStrictRanges: it fills them in by assignment)
+        return tuple(vals) if all(v is not None for v in vals) else vals
+    return vals
+
+
+def as_given(f, inplace, spell="float"):
+    """the callable handed to mystic: pure (returns a new object) or mutating its argument in place; with an integer
+    spelling a pure constraint whose result is integral returns python ints / an integer array (a rounding constraint
+    written with int() or astype(int))"""
     if f is None:
         return None
     if not inplace:
         def pure(x):
             r = f([float(v) for v in x])
+            if spell in ("int", "intarray") and all(float(v).is_integer() for v in r):
+                return np.array([int(v) for v in r], dtype=int) if spell == "intarray" else [int(v) for v in r]
             return np.array(r) if isinstance(x, np.ndarray) else type(x)(r) if isinstance(x, (list, tuple)) else r
         return pure
     def inpl(x):
@@ -120,9 +138,18 @@ BOXES = {
     "infinite": lambda d: ([-float("inf")] + [-2.0] * (d - 1), [float("inf")] + [2.0] * (d - 1)),
     # every parameter has ONE infinite side, written as an explicit inf (not None): still bounded on the other side
     "halfinf": lambda d: ([0.25] * d, [float("inf")] * d),
+    # integer corners away from zero (a positive lower / a negative upper bound) and their fractional sub-boxes
+    "shifted": lambda d: ([1.0] * d, [4.0] * d),
+    "negshift": lambda d: ([-4.0] * d, [-1.0] * d),
     "mixedinf": lambda d: ([(0.25 if k % 2 == 0 else -float("inf")) for k in range(d)],
                            [(float("inf") if k % 2 == 0 else 0.75) for k in range(d)]),
 }
+
+
+def second_box(name, d):
+    """a fractional sub-box of BOXES[name] (uniform over the coordinates), or None"""
+    sub = {"wide": (-2.5, 2.75), "unit": (0.5, 1.75), "shifted": (1.5, 3.75), "negshift": (-3.75, -1.5)}.get(name)
+    return None if sub is None else ([sub[0]] * d, [sub[1]] * d)
 
 
 # ------------------------------------------------------------------------------------------------ recorder
@@ -218,10 +245,17 @@ class ObjRun(object):
         return v
 
     # ---- installation -----------------------------------------------------------------------------
-    def install_box(self, s, midrun):
+    def install_box(self, s, midrun, second=False):
         if self.box_cfg is None:
             return
+        if second:        # the first box is REPLACED by its fractional sub-box (always written as floats)
+            b2 = second_box(self.cfg["box"], self.dim)
+            if b2 is None:
+                return
+            self.box_cfg = b2
         lo, hi = copy.deepcopy(self.box_cfg[0]), copy.deepcopy(self.box_cfg[1])
+        if not second:
+            lo, hi = spelled(lo, self.cfg.get("spell", "float")), spelled(hi, self.cfg.get("spell", "float"))
         kw = {}
         if self.cfg.get("tight") is not None:
             kw["tight"] = self.cfg["tight"]
@@ -250,7 +284,7 @@ class ObjRun(object):
         """install through SetConstraints, or (kw given) through the `constraints=` keyword of the next Step"""
         if self.cons_pristine is None:
             return
-        f = as_given(self.cons_pristine, self.cfg.get("inplace", False))
+        f = as_given(self.cons_pristine, self.cfg.get("inplace", False), self.cfg.get("spell", "float"))
         if kw is None:
             s.SetConstraints(f)
         else:
@@ -316,10 +350,18 @@ class ObjRun(object):
         self.solver = s
         rng = self.rng
         spread = 5.0 if cfg.get("x0out") else 1.5
+        spell = cfg.get("spell", "float")
+        if cfg.get("far"):          # a start far from the origin (the initial simplex / population scale with it)
+            spread = 60.0
         if kind in ("DE", "DE2"):
-            s.SetRandomInitialPoints([-spread] * dim, [spread] * dim)
+            s.SetRandomInitialPoints(spelled([-spread] * dim, spell), spelled([spread] * dim, spell))
         else:
-            s.SetInitialPoints([rng.uniform(-spread, spread) or 0.5 for _ in range(dim)])
+            x0 = [rng.uniform(-spread, spread) or 0.5 for _ in range(dim)]
+            if cfg.get("far"):
+                x0 = [math.copysign(rng.uniform(20.0, spread), v) for v in x0]
+            if spell != "float":
+                x0 = spelled([float(round(v)) or 1.0 for v in x0], spell)
+            s.SetInitialPoints(x0)
         s.SetObjective(self.cost)
         if self.reducer is not None:
             s.SetReducer(self.reducer, arraylike=self.arraylike)
@@ -328,7 +370,7 @@ class ObjRun(object):
         if kind in ("DE", "DE2") and cfg.get("strategy"):
             s.strategy = cfg["strategy"]
         at = {"box": cfg.get("box_at", 0), "cons": cfg.get("cons_at", 0), "pen": cfg.get("pen_at", 0)}
-        rfs = cfg["box"] != "none" and at["box"] == 0 and cfg.get("box_off_at") is None
+        rfs = cfg["box"] != "none" and at["box"] == 0 and cfg.get("box_off_at") is None and cfg.get("box2_at") in (None, 0)
         cfs = cfg["cons"] != "none" and self.cons_pristine is not None and at["cons"] == 0
         self.events.append({"ev": "New", "kind": kind, "rfs": bool(rfs), "cfs": bool(cfs),
                             "randomclip": cfg.get("clip") is False, "members": True, "cfg": cfg, "seed": self.seed})
@@ -338,6 +380,8 @@ class ObjRun(object):
             via_step = cfg.get("via") == "step" and k < steps
             if at["box"] == k:
                 self.install_box(s, k > 0)
+            if cfg.get("box2_at") is not None and cfg["box"] != "none" and k == max(cfg["box2_at"], at["box"]) and k < steps:
+                self.install_box(s, k > 0, second=True)
             if cfg.get("box_off_at") is not None and cfg["box"] != "none":
                 if k == cfg["box_off_at"] and k > at["box"]:
                     self.remove_box(s, cfg.get("box_off_how", "off"))
